@@ -44,8 +44,14 @@ import (
 	"golang.org/x/crypto/ed25519"
 )
 
-// T0 is the unix time of tick 0. One tick = one second.
+// T0 is the unix time of tick 0.
 const T0 = int64(1600000000)
+
+// Tick is the length of one model tick. It is deliberately NOT a whole second: 50 ms ticks give
+// block times and completion times such as 00:00:00.05, 00:00:00.5 and 00:00:01 - different
+// numbers of fractional digits within one second - so that the order of time-keyed store keys
+// (unstaking queue) is exercised on sub-second values too.
+const Tick = 50 * time.Millisecond
 
 // INF is the abstract value of "forever" (DoubleSignJailEndTime).
 const INF = int64(99999)
@@ -73,6 +79,8 @@ type Cfg struct {
 	DaoOwner    int     `json:"DaoOwner"` // id of DAO owner (0 = empty address)
 	AclOwner    []int   `json:"AclOwner"` // owner id of every parameter in ParamKeys order; len 1 = same owner for all
 	KeySeed     int64   `json:"KeySeed"`
+	Exported    bool    `json:"Exported"`   // the pos genesis is an export (carries previous-state powers)
+	PrevPowers  []int64 `json:"PrevPowers"` // per user id: previous-state power in an exported genesis (-1 none)
 	Pruning     string  `json:"Pruning"` // nothing|everything|syncable|kr,ke
 	DBDir       string  `json:"DBDir"`   // "" = MemDB, else goleveldb dir
 	MaxGas      int64   `json:"MaxGas"`  // consensus param Block.MaxGas given to InitChain (0 = no block gas limit)
@@ -439,31 +447,30 @@ func (a *App) ID(addr []byte) int {
 	return 0
 }
 
-func tickTime(t int64) time.Time { return time.Unix(T0+t, 0).UTC() }
+func tickTime(t int64) time.Time { return time.Unix(T0, 0).UTC().Add(time.Duration(t) * Tick) }
 
 func absTime(t time.Time) int64 {
-	u := t.Unix()
-	if u < T0 {
+	if t.Unix() < T0 {
 		return -1
 	}
-	if u >= postypes.DoubleSignJailEndTime.Unix() {
+	if t.Unix() >= postypes.DoubleSignJailEndTime.Unix() {
 		return INF
 	}
-	return u - T0
+	return int64(t.Sub(time.Unix(T0, 0)) / Tick)
 }
 
 func (a *App) PosParams() postypes.Params {
 	c := a.Cfg
 	return postypes.Params{
-		UnstakingTime:            time.Duration(c.UnstakeTime) * time.Second,
+		UnstakingTime:            time.Duration(c.UnstakeTime) * Tick,
 		MaxValidators:            c.MaxVals,
 		StakeDenom:               sdk.DefaultStakeDenom,
 		StakeMinimum:             c.MinStake,
 		ProposerRewardPercentage: 90,
-		MaxEvidenceAge:           time.Duration(c.MaxEvAge) * time.Second,
+		MaxEvidenceAge:           time.Duration(c.MaxEvAge) * Tick,
 		SignedBlocksWindow:       c.Window,
 		MinSignedPerWindow:       sdk.MustNewDecFromStr(c.MinSigned),
-		DowntimeJailDuration:     time.Duration(c.JailDur) * time.Second,
+		DowntimeJailDuration:     time.Duration(c.JailDur) * Tick,
 		SlashFractionDoubleSign:  sdk.MustNewDecFromStr(c.FracDS),
 		SlashFractionDowntime:    sdk.MustNewDecFromStr(c.FracDT),
 	}
@@ -494,9 +501,7 @@ func (a *App) genesis() map[string]json.RawMessage {
 		if g.Status == 1 {
 			v.UnstakingCompletionTime = tickTime(g.Uat)
 		}
-		if g.Status == 2 {
-			pool += g.Tokens
-		}
+		pool += g.Tokens // every genesis validator's stake has to be backed (staked or unstaking)
 		vals = append(vals, v)
 	}
 	ap := authtypes.DefaultParams()
@@ -517,6 +522,17 @@ func (a *App) genesis() map[string]json.RawMessage {
 	pgs := postypes.DefaultGenesisState()
 	pgs.Params = a.PosParams()
 	pgs.Validators = vals
+	if c.Exported {
+		pgs.Exported = true
+		total := int64(0)
+		for i, p := range c.PrevPowers {
+			if p >= 0 && i < len(a.Keys) {
+				pgs.PrevStateValidatorPowers = append(pgs.PrevStateValidatorPowers, postypes.PrevStatePowerMapping{Address: a.Keys[i].Addr, Power: p})
+				total += p
+			}
+		}
+		pgs.PrevStateTotalPower = sdk.NewInt(total)
+	}
 	// gov
 	acl := govtypes.ACL(make([]govtypes.ACLPair, 0))
 	for i, key := range ParamKeys {
